@@ -241,16 +241,11 @@ class VttContext:
 
     LOGGER.debug("Check and process the last VTT paragraph.")
 
-    if self._paragraphs and self._paragraphs[-1].get_end() is None:
-      if self._paragraphs[-1].is_only_whitespace_or_empty():
-        # if the last paragraph contains only whitespace, remove it
-        LOGGER.debug("Removing empty unbounded last paragraph.")
-        self._paragraphs.pop()
-
-      else:
+    for paragraph in self._paragraphs:
+      if paragraph.get_end() is None:
         # set default end time code
         LOGGER.warning("Set a default end value to paragraph (begin + 10s).")
-        self._paragraphs[-1].set_end(self._paragraphs[-1].get_begin().to_seconds() + 10.0)
+        paragraph.set_end(paragraph.get_begin().to_seconds() + 10)
 
   def style_block(self):
     """Generated CSS INLINE STYLE Block"""
